@@ -627,3 +627,18 @@ Theorem c09_cond_rows_not_vacuous :
   copy_fresh_mutables cr_census = false /\
   cond_rows_ok [("Keyvalues"%string, cr_census_claims_deep)] [("Keyvalues"%string, "_value"%string, HDeep, HShare)] = false.
 Proof. exact cond_rows_example. Qed.
+
+(** ROUND 4 — GUARDS OF POST-CONSTRUCTION STORES.  [new.f = ...] under [if g(self.f):] carries every value iff the guard
+    fails only on the constructor default; [is not None] does, bare truthiness loses exactly the EMPTY container (the
+    translator records such a test of the stored field itself as a guard flow: [copy_args_lossless] names the field). *)
+Theorem c09_guarded_store_complete_iff : forall A (g : A -> bool) (d : A),
+  (forall v, guarded_store g d v = v) <-> (forall v, g v = false -> v = d).
+Proof. exact guarded_store_complete_iff. Qed.
+
+Theorem c09_is_not_none_guard_complete : forall v : optlist, guarded_store g_is_not_none None v = v.
+Proof. exact is_not_none_guard_complete. Qed.
+
+Theorem c09_truthy_guard_loses_empty_refuted :
+  guarded_store g_truthy None (Some []) <> Some [] /\
+  forall v : optlist, v <> Some [] -> guarded_store g_truthy None v = v.
+Proof. exact truthy_guard_loses_empty. Qed.
